@@ -341,8 +341,41 @@ func (hs *serverHandshakeState) checkForResumption() bool {
 	if sessionHasClientCerts && c.config.ClientAuth == NoClientCert {
 		return false
 	}
+	if sessionHasClientCerts && !c.sessionCertsVerify(hs.sessionState.certificates) {
+		return false
+	}
 
 	return true
+}
+
+// sessionCertsVerify reports whether the client certificates stored in a
+// session ticket still verify under the current configuration. A session whose
+// certificates no longer do is not resumed; the server performs a full
+// handshake instead of aborting the connection.
+func (c *Conn) sessionCertsVerify(certificates [][]byte) bool {
+	if c.config.ClientAuth < VerifyClientCertIfGiven {
+		return true
+	}
+	opts := x509.VerifyOptions{
+		Roots:         c.config.ClientCAs,
+		CurrentTime:   c.config.time(),
+		Intermediates: x509.NewCertPool(),
+		KeyUsages:     []x509.ExtKeyUsage{x509.ExtKeyUsageClientAuth},
+	}
+	var leaf *x509.Certificate
+	for i, asn1Data := range certificates {
+		cert, err := x509.ParseCertificate(asn1Data)
+		if err != nil {
+			return false
+		}
+		if i == 0 {
+			leaf = cert
+		} else {
+			opts.Intermediates.AddCert(cert)
+		}
+	}
+	_, err := leaf.Verify(opts)
+	return err == nil
 }
 
 func (hs *serverHandshakeState) doResumeHandshake() error {
